@@ -116,7 +116,14 @@ pub fn make_input(rng: &mut Rng, pool: &[Base], seeds: &[(String, Vec<u8>)], emp
     let mut bytes = base.bytes.clone();
     desc.push(format!("{} base ({} bytes, v{})", base.origin, bytes.len(), base.img.version));
     rep.count(&format!("input.base.{}", base.origin));
-    let n_mut = rng.range(1, 4);
+    let mut n_mut = rng.range(1, 4);
+    if rng.chance(1, 10) {
+        if let Some(d) = corrupt::compound(rng, &mut bytes, &base.img) {
+            rep.count("mutation.compound");
+            desc.push(d);
+            n_mut = rng.below(2); // mostly alone, sometimes with one more field
+        }
+    }
     for _ in 0..n_mut {
         let d = corrupt::mutate_field(rng, &mut bytes, &base.img, &base.idx, emph);
         let class = d.split(|c: char| !c.is_alphanumeric()).next().unwrap_or("?").to_string();
@@ -282,6 +289,9 @@ pub fn run_c05(ctx: &Ctx, rep: &mut Report) {
         return;
     }
     guard::set_alloc_cap(1 << 30);
+    if crate::props::wide::maybe_run(ctx, rep, crate::props::wide::Role::Hostile, 0, 4) {
+        return;
+    }
     let mut i = 0;
     while let Some(case) = ctx.next_case(&mut i) {
         let mut rng = ctx.case_rng(case);
